@@ -63,6 +63,26 @@ structure LookupResult where
   branch : Int
   deriving Inhabited
 
+/-- `f64::to_radians` / `f64::to_degrees` of Rust's std: multiplication by the constant-folded `PI / 180.0` resp.
+`180.0 / PI` (bit patterns of those two `f64` quotients) -/
+def stdToRadians (x : Float) : Float := x * Float.ofBits 0x3f91df46a2529d39
+def stdToDegrees (x : Float) : Float := x * Float.ofBits 0x404ca5dc1a63c1f8
+
+/-- `offset_lonlat` (fix 24ee3fd): move a point by `east` / `north` degrees of arc along the local east and north directions -/
+def offsetLonLat (lon lat east north : Float) : Float × Float :=
+  let lo := stdToRadians lon
+  let la := stdToRadians lat
+  let de := stdToRadians east
+  let dn := stdToRadians north
+  let sinLon := lo.sin
+  let cosLon := lo.cos
+  let sinLat := la.sin
+  let cosLat := la.cos
+  let x := cosLat * cosLon - de * sinLon - dn * sinLat * cosLon
+  let y := cosLat * sinLon + de * cosLon - dn * sinLat * sinLon
+  let z := sinLat + dn * cosLat
+  (stdToDegrees (Float.atan2 y x), stdToDegrees (Float.atan2 z (x * x + y * y).sqrt))
+
 def probeSamples (lon lat : Float) (hres : Int) : List (Float × Float) :=
   let n := Gen.PROBE_COUNT
   let pow := if hres ≥ 0 then Float.ofNat (2 ^ hres.toNat) else 1.0 / Float.ofNat (2 ^ (-hres).toNat)
@@ -70,7 +90,7 @@ def probeSamples (lon lat : Float) (hres : Int) : List (Float × Float) :=
   (lon, lat) :: (List.range n).map (fun i =>
     let fi := Float.ofNat i
     let r := (fi / Float.ofNat n) * scale
-    (lon + fi.cos * r, lat + fi.sin * r))
+    offsetLonLat lon lat (fi.cos * r) (fi.sin * r))
 
 /-- the sample loop of `lonlat_to_cell`: `seen` = keys already tried, `cells` = (estimate, distance) misses -/
 def lookupLoop (lon lat : Float) (resolution : Int) :
